@@ -7,7 +7,7 @@ import subprocess
 import sys
 import time
 
-from ..core import pool, evidence, sut
+from ..core import pool, evidence, sut, reach
 from ..core.seeds import rng_for, verif_seed
 from ..ragsim import gen, schedule
 from ..ragsim.case import (make_case, side, evaluate, div_class, explained_by_stale_alias, pretty,
@@ -306,6 +306,13 @@ def main(prop, tier, runs=None, k=None, write=True):
         "divergences_seen": int(tot.get("divergences", 0)),
         "known_findings_reported": known_lines,
     }
+    sample_n = min(cfg["runs"], 150)
+    cov["reach_sample"] = {"what": f"statement coverage of the anchored files over the first {sample_n} runs of this "
+                                   "batch, re-executed in the parent process under coverage.py (non-gating)",
+                           **reach.measure(["npstructures/raggedshape.py", "npstructures/raggedarray/base.py",
+                                            "npstructures/raggedarray/indexablearray.py",
+                                            "npstructures/raggedarray/__init__.py", "npstructures/arrayfunctions.py"],
+                                           lambda: explore_chunk(0, sample_n, payload))}
     if prop == "C19":
         cov["index_rows_calls_on_int32_path"] = {k2[6:]: v for k2, v in sorted(tot.items()) if k2.startswith("idx32:")}
     for line in known_lines:
